@@ -339,7 +339,15 @@ def gen_web(rng, idx):
         if params and rng.random() < 0.25:                       # a repeated key: dict() keeps its FIRST value
             kk = rng.choice(params)[0]
             params.insert(rng.randint(0, len(params)), [kk, rng.choice(VALS)])
-        events.append(["req", m, p, params])
+        # parameters on the OTHER channel, which the handler must not see: query keys on the URL of a POST (disjoint from and
+        # overlapping with the form keys, also with an empty form), a form body on a GET
+        other = []
+        if rng.random() < (0.4 if m == "post" else 0.15):
+            ks = rng.sample(KEYS + ["token", "only"], rng.randint(1, 2))
+            if params and rng.random() < 0.4:
+                ks[0] = params[0][0]
+            other = [[kk, rng.choice(VALS + ["q"])] for kk in ks]
+        events.append(["req", m, p, params, other])
     return {"kind": "web", "id": idx, "defs": defs, "gets": gets, "posts": posts, "behavs": behavs, "events": events}
 
 
@@ -466,12 +474,32 @@ def gen_ws(rng, idx):
 
 
 # Klong source of a value to send, and the JSON tree it must arrive as
+# expected values are TYPED: a Python int is a JSON integer (no fraction), a float a JSON real, a bool true/false
 SENDS = [("42", 42), ("-7", -7), ("2.5", 2.5), ('"hé"', "hé"), ('""', ""), ("[1 2 3]", [1, 2, 3]), ("[]", []),
          ('[1 [2 "x"]]', [1, [2, "x"]]), ('["a" "bc"]', ["a", "bc"]), ("[[1 2] [3 4]]", [[1, 2], [3, 4]]),
          (':{["a" 1]}', {"a": 1}), (':{["k" [1 2]] ["s" "t"]}', {"k": [1, 2], "s": "t"}), ("0cx", "x"), (":sym", "sym"), ("0", 0),
-         (':{["n" [1 [2 "y"]]]}', {"n": [1, [2, "y"]]}), ("[1.5 2]", [1.5, 2]),
-         # computed numbers are numpy scalars, not Python ints
-         ("-7", -7), ("1+1", 2), ("#[1 2 3]", 3), ("2.5*2", 5), ("1+[1 2]", [2, 3]), ("(1+1),,(0-3)", [2, -3])]
+         (':{["n" [1 [2 "y"]]]}', {"n": [1, [2, "y"]]}), ("[1.5 2]", [1.5, 2.0]),
+         # computed numbers are numpy scalars, not Python numbers: integers must stay integers, reals reals
+         ("-7", -7), ("1+1", 2), ("#[1 2 3]", 3), ("2.5*2", 5.0), ("1+[1 2]", [2, 3]), ("(1+1),,(0-3)", [2, -3]),
+         ("+/[2 3]", 5), ("[4 5 6]@1", 5), ("_2.75", 2), ("9007199254740992+1", 9007199254740993), ("9223372036854775806+1", 9223372036854775807),
+         ("0-9007199254740993", -9007199254740993), ('(+/[2 3]),,"a"', [5, "a"]), (':{},"k",,+/[2 3]', {"k": 5}),
+         (':{},"k",,(9007199254740992+1),,"z"', {"k": [9007199254740993, "z"]}), ("1%4", 0.25), ("+/[0.5 0.25]", 0.75),
+         ("(+/[2 3]),,1%4", [5.0, 0.25]), ("npi", 7), ("npf", 0.5), ("npb", True), ("npbig", 9007199254740993)]
+
+
+def typed_equal(a, b):
+    """JSON values equal INCLUDING the kind of every number (integer / real / boolean)"""
+    if isinstance(a, bool) or isinstance(b, bool):
+        return isinstance(a, bool) and isinstance(b, bool) and a == b
+    if isinstance(a, int) or isinstance(b, int):
+        return isinstance(a, int) and isinstance(b, int) and a == b
+    if isinstance(a, float) and isinstance(b, float):
+        return a == b
+    if isinstance(a, list) and isinstance(b, list):
+        return len(a) == len(b) and all(typed_equal(x, y) for x, y in zip(a, b))
+    if isinstance(a, dict) and isinstance(b, dict):
+        return a.keys() == b.keys() and all(typed_equal(a[k], b[k]) for k in a)
+    return type(a) == type(b) and a == b
 
 
 def fixed_scenarios():
@@ -482,7 +510,11 @@ def fixed_scenarios():
          "events": [["req", "get", "/", {}], ["req", "get", "/a", {"k": "vé", "x y": "a&b=c d+e%"}], ["req", "post", "/f", {"k": "1"}],
                     ["req", "post", "/", {"k": "after failure"}], ["def", "h0", 'h0::{logf(3;x);"neu"}', ["fn", 1, 3]],
                     ["req", "get", "/", {"a": ""}], ["req", "get", "/f", {}], ["req", "post", "/nope", {}],
-                    ["req", "get", "/a", [["k", "first"], ["a", ""], ["k", "second"]]], ["req", "post", "/", [["x", "1"], ["k", ""], ["k", "2"], ["x", "3"]]]]}
+                    ["req", "get", "/a", [["k", "first"], ["a", ""], ["k", "second"]]], ["req", "post", "/", [["x", "1"], ["k", ""], ["k", "2"], ["x", "3"]]],
+                    # the URL of a POST carries query keys, a GET carries a body: the handler sees the form (POST) / the query (GET) only
+                    ["req", "post", "/", [["k", "form"], ["m", "2"]], [["token", "t"]]], ["req", "post", "/", [], [["k", "only-query"]]],
+                    ["req", "post", "/", [["k", "form"]], [["k", "query"], ["z", "9"]]], ["req", "get", "/a", [["k", "query"]], [["k", "body"], ["b", "1"]]],
+                    ["req", "get", "/a", [], [["k", "body"]]]]}
     out = [w]
     # good -> failing (each error class) -> good redefinitions of a named handler; never-redefined failing handlers
     out.append({"kind": "web", "id": "fixed-redefine-into-failing",
@@ -569,14 +601,17 @@ async def run_web(sc, port):
             if e[0] == "def":
                 await asyncio.get_event_loop().run_in_executor(None, K, e[2])
                 continue
-            _, m, p, params = e
+            m, p, params = e[1], e[2], e[3]
             params = [tuple(kv) for kv in (params.items() if isinstance(params, dict) else params)]
+            other = [tuple(kv) for kv in (e[4] if len(e) > 4 else [])]
             try:
                 if m == "get":
-                    async with s.get(base + p, params=params) as r:
+                    # `other` = a form body the GET handler must not see
+                    async with s.get(base + p, params=params, data=(other or None)) as r:
                         out["resps"].append([r.status, await r.text()])
                 else:
-                    async with s.post(base + p, data=params) as r:
+                    # `other` = query keys on the URL the POST handler must not see
+                    async with s.post(base + p, params=(other or None), data=params) as r:
                         out["resps"].append([r.status, await r.text()])
             except Exception as ex:
                 out["resps"].append(["EXC", type(ex).__name__])
@@ -657,6 +692,10 @@ def wslog(x, y):
         raise RuntimeError("boom")
     return 0
 klong['wslog'] = wslog
+klong['npi'] = np.int32(7)
+klong['npf'] = np.float32(0.5)
+klong['npb'] = np.bool_(True)
+klong['npbig'] = np.int64(9007199254740993)
 
 def wait_for(pred, timeout):
     t0 = time.monotonic()
@@ -774,7 +813,7 @@ def check_web(chk, sc, got, m_impl, m_good):
     resps_i, log_i, _ = m_impl
     resps_g, log_g, spec_g = m_good
     prop = corr = None
-    reqs = [e for e in sc["events"] if e[0] == "req"]
+    reqs = [e for e in sc["events"] if e[0] == "req"]     # e[4], when present: parameters on the channel the handler must NOT see
 
     def cmp_resps(model):
         for i, (g, m) in enumerate(zip(got["resps"], model)):
@@ -842,7 +881,7 @@ def check_ws(chk, sc, got, model):
             ok = isinstance(text, str)
             if ok:
                 try:
-                    ok = same_json(json.loads(text), want)
+                    ok = typed_equal(json.loads(text), want)
                 except ValueError:
                     ok = False
             if not ok:
@@ -859,16 +898,43 @@ def check_ws(chk, sc, got, model):
     return prop, known, corr
 
 
+def kv_of(v):
+    """typed python value -> the model's kv"""
+    if isinstance(v, bool):
+        return ["t"] if v else ["f"]
+    if isinstance(v, int):
+        return ["i", v]
+    if isinstance(v, float):
+        return ["n", int(v * 4)]
+    if isinstance(v, str):
+        return ["s"] + cps(v)
+    if isinstance(v, list):
+        return ["l"] + [kv_of(x) for x in v]
+    return ["d"] + [[cps(k), kv_of(x)] for k, x in v.items()]
+
+
+def typed_of_jv(x):
+    """model jv -> typed python value ((i z) integer, (n q) real)"""
+    t = x[0]
+    if t == "i":
+        return int(x[1])
+    if t == "n":
+        return x[1] / 4.0
+    if t == "t":
+        return True
+    if t == "f":
+        return False
+    if t == "null":
+        return None
+    if t == "s":
+        return un_str(x[1:])
+    if t == "a":
+        return [typed_of_jv(e) for e in x[1:]]
+    return {un_str(k): typed_of_jv(v) for k, v in x[1:]}
+
+
 def enc_requests():
-    def kv(v):
-        if isinstance(v, (int, float)):
-            return ["n", int(v * 4)]
-        if isinstance(v, str):
-            return ["s"] + cps(v)
-        if isinstance(v, list):
-            return ["l"] + [kv(x) for x in v]
-        return ["d"] + [[cps(k), kv(x)] for k, x in v.items()]
-    return [sx(["enc", kv(want)]) for _, want in SENDS]
+    return [sx(["enc", kv_of(want)]) for _, want in SENDS]
 
 
 def run(tier, replay=None):
@@ -902,7 +968,7 @@ def run(tier, replay=None):
                           {"broken_obligation": proof["broken"], "coq_error": proof["error"], "generated": chk.generated_text}, no_input=True)
     return chk.finish(
         rule="web: seeded scenarios of <=3 GET + <=3 POST routes (named / inline / arity-2 / arity-0 / projection / non-function handlers; const, count, lookup and raising bodies), "
-             "3-9 events each (requests to registered, unknown and wrong-method paths with empty / several / non-ASCII / URL-special parameters and repeated keys, handler redefinitions), then .webc and a refused connect, "
+             "3-9 events each (requests to registered, unknown and wrong-method paths with empty / several / non-ASCII / URL-special parameters and repeated keys, POSTs whose URL also carries query keys and GETs that also carry a form body, handler redefinitions), then .webc and a refused connect, "
              "against the real aiohttp server started by .web; ws: seeded message sequences over all JSON kinds pushed by an in-process websockets server, then values sent through the connection. "
              "distinct = distinct (route kinds, event kinds) / (message class sequence); non-trivial = at least one handled request / one delivered message",
         trusted_base=TRUSTED, assumptions=ASSUME,
@@ -924,7 +990,7 @@ def evaluate(chk, scenarios):
             s["wait"] = 1.0
     for r, (_, want) in zip(chk.run_model(enc_requests()), SENDS):
         chk.count("encoder_trees")
-        if r[0] != "ok" or not same_json(py_of_jv(r[1]), want) or r[2][1] != 1:
+        if r[0] != "ok" or not typed_equal(typed_of_jv(r[1]), want) or r[2][1] != 1:
             raise RuntimeError("extracted to_json disagrees with the expected JSON tree of %r: %r" % (want, r))
     got = run_child(chk, scenarios)
     gw = [g for s, g in zip(scenarios, got) if s["kind"] == "web"]
